@@ -363,6 +363,7 @@ func c23Check(c *stat.Collector, rt stat.Fataler, p plan, rec *runRec) (nt bool,
 func TestVerif_C23_FollowMaster(t *testing.T) {
 	c := stat.For("C23", "follow-master-"+queueLabel()).Rule("sentinel client in a synctest bubble against the sentinel personality of the fake server: 1-3 sentinels (each with its own, possibly stale or wrong view; one anchor sentinel learns every failover after at most 2 answers), 2-4 data nodes with true roles; history of failovers (per sentinel: announced at once / after n more answers / never, with or without +switch-master; promoted node still answering ROLE slave for 0-2 queries), failovers sprung right after a sentinel answered (role flip between the answer and the client's ROLE check), view changes, +sdown/-sdown/+slave/+reboot/+sentinel events, sentinel and data connection kills, refused dials; client modes primary / SendToReplicas(generated predicate) / ReplicaOnly, multiplex, RESP2, retry; user traffic (Do, DoMulti, DoCache, DoMultiCache, DoStream, DoMultiStream, blocking, Receive; unique keys) placed on and around the events plus final probes after all views converged; every connection is tagged with the option set it was dialled with. Oracle from the per-node log: each user command reached a node that had answered ROLE with the role its traffic kind needs on a connection of that option set, whose latest such answer before the call started was not the wrong role, and (primary) that a sentinel reply or event had named as master; 5 s after a delivered +switch-master primary traffic is only on the announced master until the truth changes again, and final probes reach it. Non-trivial = the client saw a wrong-role ROLE answer or the plan had >=2 failovers, and user commands were checked")
 	defer c.Flush()
+	defer singleP()()
 	rapid.Check(t, func(rt *rapid.T) {
 		p := genC23Plan(rt)
 		saveCase("c23", p)
